@@ -41,3 +41,41 @@ def parse_pdu_request_consistency(m: Model, r: Report, rid: str) -> None:
     r.check(okc, rid, f"{pp.qualname}#same-parsed-request",
             f"{detail}; both must use the dynamically parsed request {parsed_var}: otherwise typed replies to raw requests are only "
             "compared by service id (stale identifiers accepted) or typed requests that re-parse as raw are refused", loc=pp.loc)
+
+
+def request_roundtrip_guard(m: Model, r: Report, rid: str) -> None:
+    """UDSRequest.from_pdu only returns an object whose serialisation equals the given bytes: otherwise parse_dynamic(x).pdu != x
+    for non-canonical encodings, which (a) lets a lossy parse pass for a typed request and (b) makes the logged request bytes differ
+    from the transmitted ones."""
+    from sa.cfg import CFG
+    SERVICE = "gallia.services.uds.core.service"
+    fp = m.require_function(f"{SERVICE}.UDSRequest.from_pdu")
+    g = CFG(fp.node)
+    rets = [n for n in g.nodes.values() if n.kind == "return" and isinstance(n.ast, ast.Return) and n.ast.value is not None]
+    if not rets:
+        raise AnalysisError(f"{fp.qualname}: no return")
+    pdu_param = fp.params()[1] if len(fp.params()) > 1 else "pdu"
+    ok_all = True
+    for rt in rets:
+        if not isinstance(rt.ast.value, ast.Name):
+            ok_all = False
+            continue
+        res = rt.ast.value.id
+        guards = set()
+        for n in g.nodes.values():
+            a = n.ast
+            test = a.test if isinstance(a, ast.Assert) else (a if n.kind == "cond" else None)
+            if test is None:
+                continue
+            for c in ast.walk(test):
+                if isinstance(c, ast.Compare) and len(c.ops) == 1 and isinstance(c.ops[0], (ast.Eq, ast.NotEq)) and \
+                        {ast.unparse(c.left), ast.unparse(c.comparators[0])} == {f"{res}.pdu", pdu_param}:
+                    guards.add(n.id)
+        ok, _ = g.must_pass(g.entry, guards, {rt.id}) if guards else (False, [])
+        ok_all = ok_all and ok
+    r.check(ok_all, rid, f"{fp.qualname}#reserialisation-checked",
+            "from_pdu can return a request object without having compared its serialisation with the parsed bytes: parse_dynamic(x).pdu may then differ "
+            "from x (non-canonical encodings are neither rejected nor kept as RawRequest)", loc=fp.loc)
+    pd = m.require_function(f"{SERVICE}.UDSRequest.parse_dynamic")
+    r.check(any(isinstance(n, ast.Return) and n.value is not None and ast.unparse(n.value) == f"RawRequest({pd.params()[1] if len(pd.params()) > 1 else 'pdu'})"
+                for n in ast.walk(pd.node)), rid, f"{pd.qualname}#raw-keeps-bytes", "the raw fallback must wrap the unmodified bytes", loc=pd.loc)
